@@ -129,14 +129,18 @@ func (c caseSpec) String() string {
 
 // build renders a step into (source MAC, discovery?, payload).  nak is the
 // address last Nak'ed by the server on s.SID (observed), if any.
-func (s step) build(nak *[4]byte) (src mac, discovery bool, payload []byte) {
+func (s step) build(nak *[4]byte, cookie []byte) (src mac, discovery bool, payload []byte) {
 	src = peers[s.Src]
 	hu := tag(tagHostUniq, []byte{byte(s.Src), s.Ident})
 	switch s.Kind {
 	case kPADI:
 		return src, true, pppoeHdr(codePADI, 0, cat(tag(tagServiceName, nil), hu))
 	case kPADR:
-		return src, true, pppoeHdr(codePADR, 0, cat(tag(tagServiceName, nil), hu, tag(tagACCookie, bytes.Repeat([]byte{s.Ident}, 16))))
+		// echo the AC-Cookie of the last PADO this MAC received, if any (Variant 3: a made-up cookie)
+		if cookie == nil || s.Variant%4 == 3 {
+			cookie = bytes.Repeat([]byte{s.Ident}, 16)
+		}
+		return src, true, pppoeHdr(codePADR, 0, cat(tag(tagServiceName, nil), hu, tag(tagACCookie, cookie)))
 	case kPADRNoCookie:
 		return src, true, pppoeHdr(codePADR, 0, cat(tag(tagServiceName, nil), hu))
 	case kPADT:
@@ -240,16 +244,17 @@ type result struct {
 }
 
 type monitor struct {
-	spec  caseSpec
-	srv   *pppoe.Server
-	snk   *sink
-	rs    *radServer
-	sess  map[uint16]*msess
-	res   *result
-	settl func()
-	last  snaps
-	lean  bool // no trace (bulk enumeration); a violating case is re-run with the trace on
-	loop  bool // deliver through the real receiveLoop (in-memory socket) instead of the handler entry points
+	spec   caseSpec
+	srv    *pppoe.Server
+	snk    *sink
+	rs     *radServer
+	sess   map[uint16]*msess
+	res    *result
+	settl  func()
+	last   snaps
+	cookie map[mac][]byte // AC-Cookie of the last PADO sent to each MAC
+	lean   bool           // no trace (bulk enumeration); a violating case is re-run with the trace on
+	loop   bool           // deliver through the real receiveLoop (in-memory socket) instead of the handler entry points
 }
 
 func newServer(spec caseSpec, snk *sink) (*pppoe.Server, error) {
@@ -396,7 +401,7 @@ func (m *monitor) step(i int, st step) bool {
 	if addressed {
 		nak = target.nak
 	}
-	src, disc, payload := st.build(nak)
+	src, disc, payload := st.build(nak, m.cookie[peers[st.Src]])
 
 	// NT bookkeeping (before the frame acts)
 	if addressed {
@@ -521,6 +526,14 @@ func (m *monitor) step(i int, st step) bool {
 		}
 	}
 
+	for _, e := range ems {
+		if e.etherType == etDiscovery && e.code == codePADO {
+			if c := findTag(e.tags, tagACCookie); c != nil {
+				m.cookie[e.dst] = c
+			}
+		}
+	}
+
 	// ---- clause (1c): IP-layer negotiation acknowledged only on authenticated sessions
 	for _, e := range ems {
 		if e.etherType == etSession && e.proto == protoIPCP && e.cpCode == cpConfAck {
@@ -597,7 +610,7 @@ func runStepsOpt(spec caseSpec, rs *radServer, rc radiusSetter, settle func(), l
 	if rc != nil {
 		rc(srv)
 	}
-	m := &monitor{spec: spec, srv: srv, snk: snk, rs: rs, sess: map[uint16]*msess{}, res: res, settl: settle, loop: loop, lean: lean}
+	m := &monitor{spec: spec, srv: srv, snk: snk, rs: rs, sess: map[uint16]*msess{}, res: res, settl: settle, loop: loop, lean: lean, cookie: map[mac][]byte{}}
 	if spec.Radius == radNone {
 		m.rs = nil
 	}
